@@ -10,13 +10,19 @@ import (
 // Environment represents the execution enviroment
 type Environment struct {
 	store     map[string]Object
+	removed   map[string]bool
 	Aliases   map[string]string
 	toCompact []Object
 }
 
 // NewEnvironment creates a new enviroment
 func NewEnvironment() *Environment {
-	return &Environment{store: map[string]Object{}, Aliases: map[string]string{}, toCompact: []Object{}}
+	return &Environment{
+		store:     map[string]Object{},
+		removed:   map[string]bool{},
+		Aliases:   map[string]string{},
+		toCompact: []Object{},
+	}
 }
 
 // AddAttributes adds the types attributes to the environment
@@ -131,6 +137,8 @@ func (e *Environment) Remove(name string) {
 	if ok {
 		delete(e.store, n)
 
+		e.removed[n] = true
+
 		return
 	}
 }
@@ -152,7 +160,8 @@ func (e *Environment) Compact() {
 	}
 }
 
-// Apply assigns the environment field to the item
+// Apply assigns the environment field to the item and deletes from the item
+// the fields that were removed from the environment
 func (e *Environment) Apply(item map[string]*types.Item, aliases map[string]string, exclude map[string]bool) {
 	for k, v := range e.store {
 		if _, ok := exclude[k]; ok {
@@ -165,6 +174,14 @@ func (e *Environment) Apply(item map[string]*types.Item, aliases map[string]stri
 
 		vItem := v.ToDynamoDB()
 		item[k] = &vItem
+	}
+
+	for k := range e.removed {
+		if _, ok := e.store[k]; ok || exclude[k] {
+			continue
+		}
+
+		delete(item, k)
 	}
 }
 
